@@ -111,6 +111,8 @@ struct Case<T: RefRing> {
     workers: usize,
     choose_items: bool,
     bound: Option<u32>,
+    /// every hand-over (also at a task end) counts as a deviation (wide inputs)
+    dev: bool,
 }
 
 impl<T: RefRing> Case<T> {
@@ -128,7 +130,7 @@ impl<T: RefRing> Case<T> {
                 Entry::Phase(p) => format!("phase{:?}", p).replace(' ', ""),
             },
             self.workers,
-            if self.choose_items { "i" } else { "" }
+            if self.choose_items { "i" } else if self.dev { "d" } else { "" }
         )
     }
 }
@@ -214,7 +216,7 @@ where
             pf.result()
         }
     };
-    let cfg = Config { workers: case.workers, choose_items: case.choose_items, max_decisions: 4000, min_items: 2, count_task_switches: false };
+    let cfg = Config { workers: case.workers, choose_items: case.choose_items, max_decisions: 4000, min_items: 2, count_task_switches: case.dev };
     let mut outcomes: BTreeSet<Vec<(usize, usize)>> = BTreeSet::new();
     let mut par_calls = 0usize;
     let mut retries = 0u64;
@@ -296,6 +298,9 @@ where
     t.points += st.points;
     t.replays_checked += replays;
     t.retries_seen += retries;
+    if t.inputs % 2000 == 1 || case.dev {
+        run.sample(json!({"key": key, "schedules": st.executions, "distinct_pivot_lists": outcomes.len(), "scheduled_parallel_calls_per_execution": par_calls}));
+    }
     if outcomes.len() > 2 {
         run.sample(json!({"key": key, "schedules": st.executions, "distinct_pivot_lists": outcomes.iter().collect::<Vec<_>>()}));
     }
@@ -401,7 +406,7 @@ fn sweep<R>(
             }
             let (a, codes) = &mats[i];
             for &(rows_type, cond) in configs {
-                let mk = |entry: Entry| Case { ring, a: a.clone(), codes: codes.clone(), rows_type, cond, entry, workers, choose_items, bound };
+                let mk = |entry: Entry| Case { ring, a: a.clone(), codes: codes.clone(), rows_type, cond, entry, workers, choose_items, bound, dev: false };
                 for e in entries {
                     match *e {
                         "public" => {
@@ -444,9 +449,10 @@ fn replay(path: &str) -> ! {
         Entry::Phase(nums.chunks(2).map(|c| (c[0], c[1])).collect())
     };
     let choose_items = w.ends_with('i');
-    let workers: usize = w.trim_start_matches('W').trim_end_matches('i').parse().unwrap();
+    let dev = w.ends_with('d');
+    let workers: usize = w.trim_start_matches('W').trim_end_matches('i').trim_end_matches('d').parse().unwrap();
     let schedule: Vec<u32> = v["detail"]["schedule"].as_array().map(|a| a.iter().map(|x| x.as_u64().unwrap() as u32).collect()).unwrap_or_default();
-    fn go<R>(ring: &'static str, al: &[R::Ref], m: usize, n: usize, codes: &[u8], rows_type: bool, cond: Cond, entry: Entry, workers: usize, choose_items: bool, schedule: &[u32]) -> bool
+    fn go<R>(ring: &'static str, al: &[R::Ref], m: usize, n: usize, codes: &[u8], rows_type: bool, cond: Cond, entry: Entry, workers: usize, choose_items: bool, dev: bool, schedule: &[u32]) -> bool
     where
         R: Ring + Bridge + nalgebra::Scalar + nalgebra::ClosedAddAssign,
         for<'x> &'x R: RingOps<R>,
@@ -463,7 +469,7 @@ fn replay(path: &str) -> ! {
                 pf.result()
             }
         };
-        let cfg = Config { workers, choose_items, max_decisions: 4000, min_items: 2, count_task_switches: false };
+        let cfg = Config { workers, choose_items, max_decisions: 4000, min_items: 2, count_task_switches: dev };
         let mut verdicts = vec![];
         for round in 0..2 {
             let (r, tr) = sched::run_scheduled(&cfg, schedule, body);
@@ -487,14 +493,46 @@ fn replay(path: &str) -> ! {
     }
     let rows = ty == "Rows";
     let bad = match ring {
-        "Z" => go::<i64>("Z", &[z(0), z(1), z(2)], m, n, &codes, rows, cond, entry, workers, choose_items, &schedule),
-        "Q" => go::<Ratio<i64>>("Q", &[Q::int(0), Q::int(1), Q::int(2), Q::new(z(1), z(2))], m, n, &codes, rows, cond, entry, workers, choose_items, &schedule),
-        "F3" => go::<FF<3>>("F3", &Fp::<3>::all(), m, n, &codes, rows, cond, entry, workers, choose_items, &schedule),
-        "Z[H]" => go::<Poly<'H', i64>>("Z[H]", &[UPoly::<Q>::zero(), UPoly::<Q>::one(), UPoly::new(vec![Q::int(0), Q::int(1)])], m, n, &codes, rows, cond, entry, workers, choose_items, &schedule),
+        "Z" => go::<i64>("Z", &[z(0), z(1), z(2)], m, n, &codes, rows, cond, entry, workers, choose_items, dev, &schedule),
+        "Q" => go::<Ratio<i64>>("Q", &[Q::int(0), Q::int(1), Q::int(2), Q::new(z(1), z(2))], m, n, &codes, rows, cond, entry, workers, choose_items, dev, &schedule),
+        "F3" => go::<FF<3>>("F3", &Fp::<3>::all(), m, n, &codes, rows, cond, entry, workers, choose_items, dev, &schedule),
+        "Z[H]" => go::<Poly<'H', i64>>("Z[H]", &[UPoly::<Q>::zero(), UPoly::<Q>::one(), UPoly::new(vec![Q::int(0), Q::int(1)])], m, n, &codes, rows, cond, entry, workers, choose_items, dev, &schedule),
         other => panic!("unknown ring {other}"),
     };
     println!("REPLAY property=C11 key={key} reproduced={bad}");
     std::process::exit(if bad { 1 } else { 0 })
+}
+
+/// Wide inputs: 17 copies of the gadget rows A = [2,1], B = [1,2] on disjoint column pairs (A and B
+/// are each fine alone and cyclic together), 34 rows in the parallel phase.  A change that forks the
+/// row loop only above a size threshold (rayon's `with_min_len`, chunking) is invisible on the
+/// <= 4-row inputs; here the A rows and the B rows fall into different halves ("ab") or alternate
+/// ("interleaved").  Every hand-over is a deviation; bound 1 (thorough 2).
+fn wide_part(run: &Run, totals: &Mutex<Totals>) {
+    let th = run.thorough();
+    let k = 17usize;
+    let mut cases: Vec<Case<Z>> = vec![];
+    for layout in ["ab", "interleaved"] {
+        let row_of = |g: usize, b: bool| if layout == "ab" { if b { k + g } else { g } } else { 2 * g + b as usize };
+        let mut a = RMat::<Z>::zero(2 * k, 2 * k);
+        for g in 0..k {
+            a.set(row_of(g, false), 2 * g, z(2));
+            a.set(row_of(g, false), 2 * g + 1, z(1));
+            a.set(row_of(g, true), 2 * g, z(1));
+            a.set(row_of(g, true), 2 * g + 1, z(2));
+        }
+        let codes: Vec<u8> = a.e.iter().map(|x| if x.is_zero() { 0 } else if *x == z(1) { 1 } else { 2 }).collect();
+        for (rows_type, m) in [(true, a.clone()), (false, a.transpose())] {
+            let codes = if rows_type { codes.clone() } else { m.e.iter().map(|x| if x.is_zero() { 0 } else if *x == z(1) { 1 } else { 2 }).collect() };
+            for entry in [Entry::Phase(vec![]), Entry::Public] {
+                cases.push(Case { ring: "Z", a: m.clone(), codes: codes.clone(), rows_type, cond: Cond::One, entry, workers: 2, choose_items: false, bound: Some(if th { 2 } else { 1 }), dev: true });
+            }
+        }
+    }
+    run.par_for(cases.len(), |i| {
+        run.add("wide_inputs", 1);
+        run_case::<i64>(run, totals, &cases[i]);
+    });
 }
 
 fn main() {
@@ -545,6 +583,9 @@ fn main() {
     sweep::<FF<3>>(&run, &totals, "F3", &fal, &[(2, 2), (2, 3), (3, 2)], &two_cfg, &["public", "phase0"], 2, false, Some(2));
     sweep::<Poly<'H', i64>>(&run, &totals, "Z[H]", &hal, &[(2, 2), (2, 3), (3, 2)], &two_cfg, &["public", "phase0"], 2, false, Some(2));
 
+    // ---- wide inputs (34 rows in the parallel phase) --------------------------------------------------
+    wide_part(&run, &totals);
+
     if th {
         sweep::<i64>(&run, &totals, "Z", &zal, &[(3, 3)], &all_cfg, &["public", "phase0"], 2, true, Some(3));
         sweep::<i64>(&run, &totals, "Z", &zal, &[(3, 3)], &two_cfg, &["phase1"], 2, false, Some(2));
@@ -580,6 +621,7 @@ fn main() {
         "write_lock_points_passed": t.retries_seen,
         "scheduling_points_passed": t.points,
         "replayed_twice_for_determinism": t.replays_checked,
+        "wide_inputs": {"count": run.get("wide_inputs"), "rule": "17 gadgets [2,1]/[1,2] on disjoint column pairs, 34x34, layouts 'A rows then B rows' and 'interleaved', Rows and Cols, phase-only and public entry, W = 2, every hand-over a deviation, bound 1 (thorough 2)"},
         "bounds": {"workers": "2 (3 on 0/1 3x3; thorough: 3 and 4 on 4x3/4x4)", "preemption_bound": "2 (unbounded = complete for shapes <= 2x3/3x2; thorough 3 on 3x3)",
                    "note": "a schedule is the vector of worker (and item) choices at task start, before every acquisition of the shared RwLock (read and write), and at task end"},
         "exhaustive": true,
